@@ -40,7 +40,8 @@ fn perrno(e: &subprocess::PopenError) -> Option<i32> {
 
 fn run_one(v: &Value, out: &mut Vec<String>) {
     let detached_cfg = v["detached"].as_bool().unwrap_or(false);
-    let mut p = Popen::create(&["true"], PopenConfig { detached: detached_cfg, ..Default::default() })
+    let mut p = Popen::create(&["true"], PopenConfig { detached: detached_cfg, setpgid: v["setpgid"].as_bool().unwrap_or(false),
+        ..Default::default() })
         .expect("spawn true");
     let real_pid = p.pid().unwrap() as i32;
     let epoch = unsafe { EPOCH };
